@@ -393,9 +393,14 @@ func (c10) Exec(c *core.Case) (out *core.Outcome) {
 		case "delete":
 			res = cl.Do(s3c.DeleteObject(bkt, v.Key, hdr...))
 		case "delver":
-			if p.Versioned && v.VID != "" {
+			switch {
+			case p.Versioned && v.VID != "":
 				res = cl.Do(s3c.DeleteObjectVersion(bkt, v.Key, v.VID, hdr...))
-			} else {
+			case !p.Versioned && i%3 != 0:
+				// without a versioning directory a version id names nothing the gateway keeps: whatever the
+				// answer, the protected object stays
+				res = cl.Do(s3c.DeleteObjectVersion(bkt, v.Key, []string{"null", "01JXSQBXG0DGARG2NE9TRZXYFC"}[i%2], hdr...))
+			default:
 				res = cl.Do(s3c.DeleteObject(bkt, v.Key, hdr...))
 			}
 		case "batch":
@@ -404,6 +409,8 @@ func (c10) Exec(c *core.Case) (out *core.Outcome) {
 				d := s3c.DelObj{Key: tv.Key}
 				if p.Versioned {
 					d.VersionID = tv.VID
+				} else if i%2 == 1 {
+					d.VersionID = "null"
 				}
 				if p.Versioned && tv.Extra != "" {
 					x := s3c.DelObj{Key: tv.Key, VersionID: tv.Extra}
